@@ -98,6 +98,66 @@ Theorem C04_worker_step_fifo : forall i now k o nd nd',
 Proof. exact node_step_ghost. Qed.
 Print Assumptions C04_worker_step_fifo.
 
+(* spawner_gets_pid, handler form: Worker::handle_command takes c out of `spawning` only for c's
+   NotifySpawn (since the repair of F71 a result-less UpdateAwaitResults no longer does) *)
+Theorem C04_spawning_left_only_by_notify : forall cmd w w' ev c,
+  handle_cmd cmd w = Good (w', ev) ->
+  mem c (w_spawning w) = true -> mem c (w_spawning w') = false ->
+  exists sp, cmd = CNotifySpawn c sp.
+Proof. exact spawning_left_only_by_notify. Qed.
+Print Assumptions C04_spawning_left_only_by_notify.
+
+Theorem C04_exec_step_keeps_spawning : forall i now o w w' ev,
+  exec_step i now o w = Good (w', ev) -> forall c, mem c (w_spawning w) = true -> mem c (w_spawning w') = true.
+Proof. exact exec_step_keeps_spawning. Qed.
+Print Assumptions C04_exec_step_keeps_spawning.
+
+Theorem C04_spawn_answered_once : forall nw caller e ns e' ns',
+  handle_event nw (ESpawnA caller) (e, ns) = Good (e', ns') ->
+  exists cw, alookup caller (e_router e') = Some cw /\
+    ns' = push_cmd cw (CNotifySpawn caller (e_next e)) (push_cmd (e_next e mod nw) (CSpawn (e_next e)) ns) /\
+    e_next e' = S (e_next e) /\ alookup (e_next e) (e_router e') = Some (e_next e mod nw).
+Proof. exact spawn_answered_once. Qed.
+Print Assumptions C04_spawn_answered_once.
+
+(* the F71 step itself, repaired: a stale result-less answer leaves a waiting spawner alone *)
+Theorem C04_stale_update_leaves_spawner : forall c t w,
+  mem c (w_spawning w) = true -> mem c (w_selecting w) = false ->
+  update_await c [(t, None)] w = w.
+Proof. exact stale_update_leaves_spawner. Qed.
+Print Assumptions C04_stale_update_leaves_spawner.
+
+(* regression witness of F71 (corpus/sim_c03.txt): after its schedule the spawner is still parked,
+   its SpawnAction still queued, the run queue empty *)
+Theorem C04_f71_schedule_repaired :
+  exists s, run (init 1) f71_schedule = Good s /\ spawner_ok 0 s = true /\
+            w_queue (n_w (nth 0 (s_nodes s) {| n_w := new_worker; n_cmd := []; n_evt := [] |})) = [].
+Proof. exact f71_schedule_repaired. Qed.
+Print Assumptions C04_f71_schedule_repaired.
+
+(* every wake-up source re-queues a parked select *)
+Theorem C04_wakeup_on_message : forall t m w w' ev pr,
+  alookup t (w_procs w) = Some pr -> mem t (w_selecting w) = true ->
+  handle_cmd (CDeliver t m) w = Good (w', ev) ->
+  w_queue w' = w_queue w ++ [t] /\ mem t (w_selecting w') = false /\
+  exists pr', alookup t (w_procs w') = Some pr' /\ p_mail pr' = p_mail pr ++ [m].
+Proof. exact wakeup_on_message. Qed.
+Print Assumptions C04_wakeup_on_message.
+
+Theorem C04_wakeup_on_result : forall awaiter t v w pr,
+  alookup awaiter (w_procs w) = Some pr -> alookup t (p_awaiting pr) <> None -> mem awaiter (w_selecting w) = true ->
+  let w' := update_await awaiter [(t, Some (ROk v))] w in
+  w_queue w' = w_queue w ++ [awaiter] /\ mem awaiter (w_selecting w') = false /\
+  exists pr', alookup awaiter (w_procs w') = Some pr' /\ alookup t (p_awaiting pr') = Some (Some (ROk v)).
+Proof. exact wakeup_on_result. Qed.
+Print Assumptions C04_wakeup_on_result.
+
+Theorem C04_wakeup_on_timeout : forall now hint w w' p,
+  expire now hint w = Good w' -> mem p (w_selecting w) = true -> timed_out now w p = true ->
+  In p (w_queue w') /\ mem p (w_selecting w') = false.
+Proof. exact wakeup_on_timeout. Qed.
+Print Assumptions C04_wakeup_on_timeout.
+
 (* non-vacuity: a 3-process fan-in mid-flight — one message arrived, one in a command queue, one in
    an event queue *)
 Theorem C04_nonvacuous :
